@@ -420,6 +420,22 @@ def split_part(term):
                     sa = call_args(src)
                     return dict(api=api, subject=strip_refs(sa[0]), n=None, sep=const_char(sa[1]) or const_str(sa[1]), index=idx, split=src, vec=vec)
         return None
+    # split_at(find-result) idiom: s.split_at(i).k with i = s.rfind(sep)? (+1)
+    if isinstance(t, tuple) and t[0] == "field" and is_call(strip_refs(t[1]), "str>::split_at"):
+        sa = call_args(strip_refs(t[1]))
+        subj = strip_refs(sa[0])
+        idx = sa[1]
+        off = 0
+        if isinstance(idx, tuple) and idx[0] == "binop" and idx[1] == "Add" and const_int(idx[3]) is not None:
+            off = const_int(idx[3])
+            idx = idx[2]
+        if isinstance(idx, tuple) and idx[0] == "field" and isinstance(idx[1], tuple) and idx[1][0] == "downcast" and idx[1][2] == "Some":
+            src = strip_refs(idx[1][1])
+            if is_call(src, "str>::rfind", "str>::find"):
+                fa = call_args(src)
+                return dict(api=_api_name(src), subject=strip_refs(fa[0]), n=None, sep=const_char(fa[1]) or const_str(fa[1]),
+                            index=t[2], split=src, vec=None, offset=off, at_subject=subj)
+        return None
     # tuple-of-Option idiom
     if isinstance(t, tuple) and t[0] == "field" and isinstance(t[1], tuple) and t[1][0] == "field" and t[1][2] == 0 \
             and isinstance(t[1][1], tuple) and t[1][1][0] == "downcast" and t[1][1][2] == "Some":
@@ -439,4 +455,32 @@ def part_role(sp):
         return "prefix" if i == 0 else "suffix"
     if api == "rsplitn":
         return "suffix" if i == 0 else "prefix"
+    if api in ("rfind", "find"):
+        if sp.get("at_subject") != sp["subject"]:
+            return "other"
+        if i == 0 and sp.get("offset") == 0:
+            return "prefix"
+        if i == 1 and sp.get("offset") == len(sp["sep"] or ""):
+            return "suffix"
+        return "other"
     return None
+
+
+def occurrence(sp):
+    """'first' / 'last' / 'all' : which occurrence of the separator the split uses"""
+    api = sp["api"]
+    if api in ("splitn",):
+        return "first" if sp["n"] == 2 else "other"
+    if api in ("rsplitn",):
+        return "last" if sp["n"] == 2 else "other"
+    return {"split_once": "first", "find": "first", "rsplit_once": "last", "rfind": "last"}.get(api, "all")
+
+
+def find_split_parts(term):
+    """all recognisable split parts inside a term (outermost first)"""
+    out = []
+    for s in subterms(term):
+        sp = split_part(s)
+        if sp:
+            out.append(sp)
+    return out
